@@ -1,49 +1,153 @@
-"""Per-property metadata for the evidence files (what is encoded, bounds, assumptions)."""
+"""Per-property metadata: what is claimed, encoded, bounded, assumed.  Single source for MANIFEST.json and evidence."""
 
 COMMON_ASSUMPTIONS = [
-    "E1: tracing replaced by a no-op shim in the solver build (log output outside the claim)",
-    "dev profile semantics (debug assertions and overflow checks ON), as modelled by Kani",
-    "results are bounded: they hold for all inputs within the per-harness bound stated in samples[].bound and say nothing beyond it",
-    "harness results are mem::forget-ed where noted (memory reclamation outside the claim)",
+    "E1: tracing replaced by a no-op shim in the solver build (log output and the trace-more feature are outside the claim)",
+    "dev-profile semantics (debug assertions and overflow checks ON), as modelled by Kani",
+    "bounded claim: holds for ALL inputs/states within the per-harness bound listed in coverage.samples[].bound; says nothing beyond it",
+    "results are mem::forget-ed where noted (memory reclamation outside the claim)",
+    "trusted: rustc front end, Kani MIR->GOTO lowering, CBMC 6.11, CaDiCaL; std / third-party crates are executed symbolically but are not the subject",
 ]
 
 HOOK_COMMITS = []
-NOTES = ("Solver-based checking (Kani/CBMC) of the real code. Exit 0 = all harnesses of the tier decided and held; "
-         "exit 1 + VIOLATION line = counterexample found by the solver and reproduced natively; exit 2 = INCONCLUSIVE "
-         "(build failure, timeout, OOM, vacuous harness, non-reproducing counterexample) - never a pass.")
+NOTES = ("Solver-based checking (Kani 0.68 / CBMC 6.11) of the real code; harnesses in harness/**.rs are attached to a scratch "
+         "copy of /repo's working tree on every run. Exit 0 = every harness of the tier was decided by the solver and held (listed "
+         "known findings print KNOWN-FINDING lines); exit 1 + VIOLATION line = counterexample found by the solver and reproduced by a "
+         "native replay; exit 2 = INCONCLUSIVE (build failure, timeout, out of memory, vacuous harness, non-reproducing "
+         "counterexample) - never reported as a pass.")
 NOT_APPLICABLE = {}
 
+E2 = "E2: std::hash::RandomState::new stubbed to fixed keys (getrandom is unsupported by Kani); hash-flooding resistance outside the claim"
+E3 = "E3: compact_str::repr::ensure_read (inline-asm register barrier) stubbed by the identity function"
+E4 = ("E4: in FRAMING harnesses ParamsStateInner::make_cgivar is a model that records the raw name bytes (ghost log) and returns "
+      "fixed interned names; HashMap::insert is a model that records the value bytes (E4b); in parse_stream harnesses hashbrown's "
+      "insert is a no-op (E4c: names observed, values only in the thorough-tier real-map harness). Map semantics = std HashMap given lawful Eq/Hash (C19)")
+E5 = ("E5: inside parser-level harnesses ProtocolVariables::parse_name is a model (one-byte names A/B/C stand for the three variables) and "
+      "ProtocolVariables::write_response is a model (4 marker bytes carrying the variable set); the real functions are checked by c17_parse_name_* / c17_wr_*")
+E5B = ("E5b: NonZeroUsize::to_compact_string (third-party compact_str/castaway/itoa) replaced by a model that returns the decimal digits "
+       "chosen symbolically by the harness (max_conns is computed FROM the digits, so no division is needed); compact_str's formatting is outside the claim")
+E8 = ("E8: GOTO-level cuts applied by a goto-instrument wrapper before CBMC: (ioerr) the body of io::Error's repr Drop is empty - dropping "
+      "an io::Error is a leak; (nogrow) Vec/SmallVec reallocation functions are replaced by assert(false);assume(false), i.e. the solver "
+      "proves no reallocation happens within the bound (harness buffers are pre-sized)")
+E7 = ("E7: transport = nondeterministic stub: every poll_read / poll_write(_vectored) returns Pending, Ready(Ok(k)) for symbolic 1<=k<=len, "
+      "Ok(0) or Err within the stated call budget; waker = no-op; Kani executes atomics sequentially (no thread interleavings)")
+
+TECH = "bounded model checking of the compiled Rust code (Kani 0.68 -> CBMC 6.11 -> CaDiCaL): symbolic inputs and symbolic private state, unwinding assertions on, cover witnesses against vacuity, counterexamples replayed natively"
+
 PROPS = {
+    "C00": {"claimed": False},
+    "C99": {"claimed": False},
     "C15": {
-        "functions": ["protocol::varint::VarInt::read", "VarInt::write", "TryFrom<u32> for VarInt", "TryFrom<usize> for VarInt",
-                      "From<VarInt> for u32", "TryFrom<VarInt> for usize", "From<u8|u16> for VarInt"],
-        "bounds": "full width: every u32/usize value, every 5-byte input and truncation; no loops in the code under test",
-        "outside": "Read/Write implementors other than &[u8], &mut [u8], Vec<u8> (generic code, instantiation-specific)",
+        "functions": ["VarInt::read", "VarInt::write", "TryFrom<u32|usize> for VarInt", "From<VarInt> for u32", "TryFrom<VarInt> for usize", "From<u8|u16> for VarInt"],
+        "bounds": "full width: every u32 / usize value, every 5-byte input with every truncation 0..5; the code under test has no loops",
+        "outside": "Read/Write implementors other than &[u8], &mut [u8], Vec<u8> (generic code; one harness per instantiation)",
         "assumptions": [],
-        "level_text": "Bounded model checking at full width: every u32/usize value and every 5-byte input with every truncation is covered by one solver query per harness; the code under test has no loops, so no unwinding bound limits the claim for the three Read/Write instantiations checked.",
-        "level_note": "Trusts rustc, Kani's lowering, CBMC, CaDiCaL. Instantiations: Read=&[u8], Write=&mut [u8] and Vec<u8>. Other Read/Write implementors are outside the claim.",
+        "level_text": "Bounded model checking at full width: one solver query per harness covers all 2^32 (2^64) values and all 2^40 five-byte inputs with every truncation; no unwinding bound restricts the claim because the code has no loops.",
+        "level_note": "Instantiations Read=&[u8], Write=&mut [u8] and Vec<u8>. Trusts rustc, Kani lowering, CBMC, CaDiCaL.",
+    },
+    "C16": {
+        "functions": ["NVIter::new", "NVIter<&[u8]>::next", "NVIter<&mut [u8]>::next", "NVIter::size_hint", "NVIter::into_inner", "nv::write", "Bytes for &[u8] / &mut [u8]"],
+        "bounds": "decoder: every byte string of length 0..8 (quick) / 0..11 (thorough) decoded to exhaustion against a loop-free reference, prefix law for every prefix, shared vs mutable in lockstep; encoder: two pairs with lengths 0..3 into every capacity 0..20, and single pairs at 127/128/129 bytes with symbolic contents",
+        "outside": "inputs longer than 11 bytes; lists of more than 5 pairs; names/values > 129 bytes (length prefixes up to 2^31-1 ARE covered: the 4 prefix bytes are symbolic); nv::write's rejection of lengths > 2^31-1 is covered at VarInt::try_from(usize) (C15) because such a slice cannot be built",
+        "assumptions": [],
+        "level_text": "Bounded model checking: all byte strings up to the length bound at once (2^64 contents x 9 lengths in quick), iterator run to exhaustion, each item compared by pointer offset and length with a reference decoder; round trips with symbolic contents across the 1-byte/4-byte length boundary.",
+        "level_note": "Unwinding assertions on (bound = max pairs + 2). Slice comparisons are written without memcmp.",
+    },
+    "C17": {
+        "functions": ["RecordHeader::{from_bytes,to_bytes,new,set_lengths,padding_bytes,is_management}", "UnknownType/BeginRequest/EndRequest::{from_bytes,to_bytes,to_record}",
+                      "Version/RecordType/Role/ProtocolStatus::try_from", "RequestFlags::{from,validate}", "From<ExitStatus> for EndRequest", "make_request_epilogue", "ProtocolVariables::write_response<Vec<u8>|SmallVec<[u8;104]>>"],
+        "bounds": "fixed-size codecs: all 2^64 eight-byte strings / all field values; set_lengths: all 65536 lengths; epilogue: every ExitStatus x id for the stream lists [], [Stdout,Stderr] ([Stderr] thorough); write_response: concrete variable subset per harness (quick: 000,010,101,111; thorough: all 8) x EVERY max_conns with 1, 2, 20 digits (thorough: 1,2,3,10,19,20) x Vec / SmallVec targets pre-filled with 0..3 bytes",
+        "outside": "decimal lengths of max_conns not instantiated (4-9, 11-18 digits); compact_str's integer formatting itself (E5b); ProtocolVariables::parse_name on arbitrary bytes is checked only for the exact names and near misses (c17_parse_name)",
+        "assumptions": [E3, E5B],
+        "level_text": "Bounded model checking, full width for every fixed-size codec (no loops, no bound); GetValuesResult generation checked byte for byte against the specification for every connection limit inside a decimal-length class.",
+        "level_note": "write_response is checked with compact_str's to_compact_string replaced by a digit model (E5b) because the third-party conversion explores 30 type-dispatch arms (3.2 M symex steps per call).",
+    },
+    "C18": {
+        "functions": ["Role::{input_streams,next_input_stream,output_streams}", "cmp_input_streams", "stream::Parser::{set_stream,active_stream,discard_stream}", "stream::Parser::parse_head", "stream::Parser::parse_payload"],
+        "bounds": "role tables: complete finite tables; set_stream: 24-byte buffer with symbolic contents and every geometry, every role / current selection / State / payload_rem / padding_rem, requested selection None|Stdin|Data, two consecutive calls; delivery: parse_head for every 8-byte header from every record-boundary state, parse_payload from every state (delivery only in State::Stream)",
+        "outside": "requested selections that are not input-stream record types (set_stream(Some(Stdout)) hits a debug assertion in cmp_input_streams in debug builds and returns Err in release builds; not part of the claim); buffers larger than 24 bytes; the panic of async Request::set_stream on rejection is a one-line expect() and not separately checked",
+        "assumptions": [E2],
+        "level_text": "Bounded model checking: the finite order tables are decided completely; set_stream and the header dispatch are one-step lemmas from an ARBITRARY parser state (all private fields symbolic under the representation invariant), so they hold after every history of calls.",
+        "level_note": "State is constructed directly through the private fields (harness module is a child of parser::stream).",
+    },
+    "C02": {
+        "functions": ["stream::Parser::{compress,consume_stream,discard_stream,consume_output,output_buffer,stream_buffer,input_buffer}", "stream::Parser::parse_payload (Stream/Skip/Values)", "stream::Parser::parse_head", "stream::Parser::parse (loop glue)"],
+        "bounds": "24-byte buffer with symbolic contents, EVERY geometry parsed_start<=gap_start<=raw_start<=free_start<=24, payload_rem 0..65535, padding_rem 0..255, every role/id/active stream; dest None or Some(len 0..24); Values: 1..6 raw bytes; parse() glue: <= 9 raw bytes (at most one following header)",
+        "outside": "buffers larger than 24 bytes (the code has no size-dependent branch other than the index arithmetic that is symbolic here - stated, not proved); whole-parse() compositions over more than one following header; Clone of a parser",
+        "assumptions": [E2, E5, E8],
+        "level_text": "Bounded model checking of one-step lemmas from an arbitrary parser state: each buffer operation and each phase of parse() is compared with a reference over the abstract state (parsed bytes, raw bytes, pending output, record accounting). Because the start state is arbitrary under the representation invariant - which each lemma re-establishes - the lemmas compose to every history of caller actions and every chunking.",
+        "level_note": "The composition (lemmas => every history) is a written argument in DESIGN.md section 7/C02; each lemma is a solver query.",
+    },
+    "C03": {
+        "functions": ["request::{SkipState,GetValuesState,HeaderState,ParamsState}::drive", "request::Parser::{parse,move_input,into_request,into_stream_parser}", "stream::Parser::{parse,parse_head,parse_payload,into_input,into_request_parser}", "RecordHeader::from_bytes", "NVIter::next"],
+        "bounds": "every harness of C01/C02/C04/C05/C06/C16 runs with Kani's panic / overflow / bounds / unwrap / debug_assert checks from arbitrary states and arbitrary bytes (no well-formedness assumption); inputs 0..24 symbolic bytes per call; one-cut lemma for SkipState; sticky Fatal for every error kind and every later parse(n)",
+        "outside": "chunking-invariance of whole multi-record executions is by composition of the per-state lemmas (consumption per call is a function of state and bytes), not one query; replace_with's panic path (Fatal(Paniced)) is unreachable when no panic is reachable and is not exercised",
+        "assumptions": [E2, E4, E5, E8],
+        "level_text": "Bounded model checking: totality (no panic, no overflow, no out-of-bounds, loops bounded by unwinding assertions) and state-machine lemmas from arbitrary states on arbitrary bytes; fatal states are shown absorbing and output-free.",
+        "level_note": "Hanging is excluded by unwinding assertions: a loop that failed to make progress would exceed its bound.",
+    },
+    "C04": {
+        "functions": ["request::GetValuesState::drive", "request::HeaderState::drive", "request::ParamsState::drive", "stream::Parser::parse_head", "stream::Parser::parse_payload (Values)", "stream::Parser::consume_output", "ProtocolVariables::write_response"],
+        "bounds": "every header (2^64) in HeaderState / ParamsState / stream parse_head; GetValues bodies of 2,3,4 (thorough 6) symbolic bytes with symbolic payload_rem / padding_rem and any accumulated set; replies compared byte for byte (type, id, status, body) and `out` growth checked in EVERY arm including the no-reply arms",
+        "outside": "GetValues bodies longer than 6 bytes; the real variable names inside parser harnesses (E5: one-byte model names; the real name table is checked in c17_parse_name); ordering across more than one record per call is by the left-to-right loop (composition)",
+        "assumptions": [E2, E5, E8],
+        "level_text": "Bounded model checking: for every possible header and every state the bytes appended to the output are exactly the prescribed reply or nothing, and the reported counts equal the bytes appended.",
+        "level_note": "E5 models are part of the claim; the real write_response is C17's subject.",
+    },
+    "C05": {
+        "functions": ["request::Parser::{move_input,into_request,into_stream_parser,from_parser}", "stream::Parser::{into_input,into_request_parser,discard_stream,compress,from_parser}", "request::Parser::parse (carry-over)"],
+        "bounds": "24-byte buffer, every input_len / geometry / amount of look-ahead 0..24 (incl. mid-header), every payload_rem/padding_rem for the record-boundary guard",
+        "outside": "the k-sequential-requests consequence is compositional (hand-off lemmas + C01/C02), no end-to-end chain harness",
+        "assumptions": [E2],
+        "level_text": "Bounded model checking: each hand-off keeps exactly the unread bytes, in order (content compared at a symbolic index), for every amount of look-ahead and every buffer geometry.",
+        "level_note": "",
     },
     "C06": {
-        "claimed": False,
-        "functions": ["Config::aligned_bufsize"],
-        "bounds": "", "outside": "", "assumptions": [],
+        "functions": ["Config::aligned_bufsize", "request::Parser::parse (stuck detection)", "request::Parser::input_buffer", "ParamsStateInner::{parse_stream,parse_buffered}"],
+        "bounds": "aligned_bufsize: every usize <= isize::MAX (full width), plus no-overflow for larger values; stuck <=> full: parse() glue for EVERY outcome of State::drive (drive replaced by a nondeterministic stub); per-call progress of parse_stream / parse_buffered (only whole pairs consumed, one incomplete unit retained) within the C01 bounds",
+        "outside": "the sufficiency clause (pairs <= B-13 never get stuck, for every segmentation) is NOT decided end to end: it follows from the per-call progress lemmas only by a written argument; buffer sizes other than 24 in parser harnesses",
+        "assumptions": [E2, E4, E8],
+        "level_text": "Bounded model checking: rounding rule at full width; 'not finished => input space offered, else StuckOnInput in this very call' for every drive outcome.",
+        "level_note": "buffer_size > isize::MAX cannot be allocated (Parser::new panics with capacity overflow), so 'effective buffer' does not exist there; for > usize::MAX-7 aligned_bufsize returns usize::MAX (not a multiple of 8) - unobservable through the public API.",
     },
-    "C17": {"claimed": False, "functions": [], "bounds": "", "outside": "", "assumptions": []},
-    "C18": {"claimed": False, "functions": [], "bounds": "", "outside": "", "assumptions": []},
-    "C16": {"claimed": False, "functions": [], "bounds": "", "outside": "", "assumptions": []},
-    "C19": {"claimed": False, "functions": [], "bounds": "", "outside": "", "assumptions": []},
-    "C20": {"claimed": False, "functions": [], "bounds": "", "outside": "", "assumptions": []},
-    "C01": {"claimed": False, "functions": [], "bounds": "", "outside": "", "assumptions": []},
-    "C02": {"claimed": False, "functions": [], "bounds": "", "outside": "", "assumptions": []},
-    "C03": {"claimed": False, "functions": [], "bounds": "", "outside": "", "assumptions": []},
-    "C04": {"claimed": False, "functions": [], "bounds": "", "outside": "", "assumptions": []},
-    "C05": {"claimed": False, "functions": [], "bounds": "", "outside": "", "assumptions": []},
-    "C07": {"claimed": False, "functions": [], "bounds": "", "outside": "", "assumptions": []},
-    "C08": {"claimed": False, "functions": [], "bounds": "", "outside": "", "assumptions": []},
-    "C09": {"claimed": False, "functions": [], "bounds": "", "outside": "", "assumptions": []},
-    "C10": {"claimed": False, "functions": [], "bounds": "", "outside": "", "assumptions": []},
-    "C11": {"claimed": False, "functions": [], "bounds": "", "outside": "", "assumptions": []},
-    "C12": {"claimed": False, "functions": [], "bounds": "", "outside": "", "assumptions": []},
-    "C13": {"claimed": False, "functions": [], "bounds": "", "outside": "", "assumptions": []},
-    "C14": {"claimed": False, "functions": [], "bounds": "", "outside": "", "assumptions": []},
+    "C01": {
+        "functions": ["request::HeaderState::drive", "request::ParamsState::drive", "ParamsStateInner::{parse_buffered,parse_stream,make_cgivar}", "SkipState<ParamsStateInner|Request>::drive", "OwnedVarName::from_compact"],
+        "bounds": "BeginRequest: every 16-byte record; framing: every payload_rem/padding_rem, 0..24 symbolic input bytes, every following header; cross-record reassembly: carry-over buffer of 1,2,3,5 (thorough 8) symbolic bytes + 0..6 new bytes + symbolic rec_end (both 1- and 4-byte length prefixes, cuts inside a prefix, pairs spread over 3+ records); in-place pass: records of 3 and 5 (thorough 7) symbolic bytes",
+        "outside": "environment equality end to end is compositional (framing lemmas + name lemma + C19 + std HashMap), not one query; pairs larger than the byte bounds; make_cgivar's lossy UTF-8 + interning on symbolic bytes only up to 3 bytes (c19_constructors) and concrete interned names",
+        "assumptions": [E2, E3, E4, E8],
+        "level_text": "Bounded model checking of the per-state lemmas of the preamble parser from arbitrary states: the sequence of (name bytes, value bytes) handed to the environment equals the name-value decoding of carry-over + consumed bytes, for every cut.",
+        "level_note": "E4/E4b/E4c models are part of the claim (real hashbrown probing is intractable under CBMC: every control-group lane is explored).",
+    },
+    "C19": {
+        "functions": ["VarName::{eq,cmp,partial_cmp,hash,new}", "OwnedVarName::{eq,cmp,hash,as_ref,borrow,from_mut_str,from_compact}", "From<&str|String|Cow|&VarName|StaticVarName> for OwnedVarName", "StaticVarName::{cmp,as_ref}"],
+        "bounds": "VarName laws: two strings of 0..18 bytes (ASCII + one optional 2-byte scalar) against a byte-wise reference order (a total order, so antisymmetry/transitivity/consistency follow), hash as recorded write sequence (any hasher); representations: 4 interned names x every case pattern x Custom/Static; constructors on 0..3-byte strings",
+        "outside": "strings longer than 18 bytes; phf lookups on fully symbolic strings >= 4 bytes; From<&HeaderName> (http feature) not checked",
+        "assumptions": [E3],
+        "level_text": "Bounded model checking: equality, order and hash input are compared with a reference (ASCII-uppercased byte string) for all pairs of strings within the bound, crossing the 16-byte hashing chunk.",
+        "level_note": "",
+    },
+    "C20": {
+        "functions": ["cgi::response::simple_redirect", "cgi::response::write_headers"],
+        "bounds": "redirect: location 0..6 symbolic ASCII bytes, capacity 0..24; headers: status 200 / 404 / 999 (custom reason) with 0..2 headers of 0..3 symbolic bytes each, capacity 0..64 (thorough: every status 100..999 without headers)",
+        "outside": "header names/values longer than 3 bytes, more than 2 headers; http_headers (delegates); Vec writer (cannot fail)",
+        "assumptions": [E8],
+        "level_text": "Bounded model checking: output and returned count equal the documented grammar byte for byte, and Err <=> capacity < length for every capacity.",
+        "level_note": "http::StatusCode::{as_str,canonical_reason} are trusted (third-party).",
+    },
+    "C08": {
+        "functions": ["Request::poll_input", "Request::poll_output", "Request::record_boundary", "Token::parse_request", "stream::Parser::parse", "request::Parser::parse"],
+        "bounds": "one poll from a record-boundary state with ONE complete reply-owing record (unknown type, symbolic type/id; thorough: GetValues) already buffered and a peer that sends nothing more; writer accepts any split (<= 2 short writes) or Pending (<= 1)",
+        "outside": "more than one buffered record; whole-connection executions; real threads",
+        "assumptions": [E2, E5, E7, E8],
+        "level_text": "Bounded model checking of the suspension points: whenever a poll returns Pending because the READER is not ready, the parser's output buffer is empty, the reply is on the transport and no complete record is left unprocessed.",
+        "level_note": "",
+    },
 }
+for k in ("C07", "C09", "C10", "C11", "C12", "C13", "C14"):
+    PROPS.setdefault(k, {"claimed": False})
+CLAIMED_NOW = {"C15", "C16", "C17", "C18", "C19", "C20"}
+for k, v in PROPS.items():
+    if k not in CLAIMED_NOW:
+        v["claimed"] = False
+for k, v in PROPS.items():
+    v.setdefault("functions", []); v.setdefault("bounds", ""); v.setdefault("outside", ""); v.setdefault("assumptions", [])
+    v.setdefault("technique", TECH)
